@@ -423,6 +423,9 @@ func GenTrafficBias(rng *rand.Rand, t *Node, i int, missBias int) *Msg {
 		if malformed && v.Kind == KVQS && x < 2 {
 			x = 2
 		}
+		if malformed && v.Kind == KVQS && v.Attr("value") == "" {
+			x = 3 // any value would do for this verifier: leave the parameter out altogether
+		}
 		switch x {
 		case 0, 1:
 			Meet(v, m)
